@@ -99,6 +99,8 @@ class StubConverter:
         out = Path(output_dir) / (src.stem + "." + format)
         if self.outcome == "raise_before":
             raise ConverterBoom("before output")
+        if self.outcome == "ret_missing":
+            return out          # well-typed, but nothing was produced
         out.write_bytes(b"CONVERTED:" + format.encode() + b":" + src.read_bytes())
         if format == "html":
             res = out.with_name(out.name + "_files")
@@ -174,6 +176,7 @@ def run_one(sc):
     root = tempfile.mkdtemp(prefix="rtflite-verif-exp-")
     rec = {"id": sc["id"], "sc": s}
     old_tmp = tempfile.tempdir
+    fake = None
     try:
         doc = make_doc()
         expected_rtf = doc.rtf_encode()
@@ -198,6 +201,19 @@ def run_one(sc):
             return {"target": t, "beside": beside, "tmp": ntmp}
         before = snap()
         conv = StubConverter(s["conv"]) if s["converter"] == "stub" and writer != "rtf" else None
+        if s["converter"] in ("real", "onpath") and writer != "rtf":
+            # the real LibreOfficeConverter against the fake program of harness/converter.py (kept outside the
+            # private temporary directory and outside the target's directory)
+            import converter as cvt
+            from rtflite.convert import LibreOfficeConverter
+            beh = {"ok": "ok", "raise_before": "fail_before", "raise_after": "fail_after", "silent": "silent"}[s["conv"]]
+            fake = cvt.FakeEnv(os.path.join(root, "lo"), {"arg": "abs_ok" if s["converter"] == "real" else "none",
+                                                          "onpath": "soffice" if s["converter"] == "onpath" else "none",
+                                                          "ver": "7.1", "beh": beh, "behat": 1})
+            os.makedirs(os.path.join(root, "lo"))
+            fake.__enter__()
+            if s["converter"] == "real":
+                conv = LibreOfficeConverter(executable_path=fake.arg())
         fired = {"v": False, "n": 0}
         k = s["fault"]
         exc_cls = InjectedBase if s["flavour"] == "base" else InjectedExc
@@ -240,6 +256,10 @@ def run_one(sc):
             rtflite.RTFDocument.rtf_encode = orig_encode
             _REC["on"] = False
             tempfile.tempdir = old_tmp
+            fake_events = []
+            if fake is not None:
+                fake_events = fake.events()
+                fake.__exit__(None, None, None)
         if captured:
             expected_rtf = captured[-1]
         after = snap()
@@ -266,10 +286,13 @@ def run_one(sc):
         rec["c"] = {"writer": writer, "target0": s["target0"], "conv": s["conv"], "converter": s["converter"], "fault": s["fault"],
                     "flavour": s["flavour"], "outcome": outcome, "exc": exc, "before": before, "after": after, "expected": expected,
                     "resources": ["report.html_files"] if writer == "html" else [],
-                    "reached_convert": bool(conv and conv.called), "fault_fired": fired["v"],
+                    "reached_convert": bool(conv and getattr(conv, "called", False)) or any(e[0] == "convert" for e in fake_events),
+                    "program_invocations": len(fake_events), "fault_fired": fired["v"],
                     "fsfault": s.get("fsfault", 0), "fs_fired": bool(_REC["fired"])}
         rec["ev"] = ev
         return rec
     finally:
         tempfile.tempdir = old_tmp
+        if fake is not None:
+            fake.__exit__(None, None, None)
         shutil.rmtree(root, ignore_errors=True)
